@@ -13,7 +13,6 @@ import (
 	"encoding/json"
 	"fmt"
 	"io"
-	"strings"
 	"testing"
 
 	"git.metabarcoding.org/obitools/obitools4/obitools4/pkg/verifkit"
@@ -138,12 +137,9 @@ func TestVerifC10Locate(t *testing.T) {
 		r.Eval(1)
 		r.Trans(1)
 		c := c10lpCase{Part: "locate", Pat: pat, Seq: string(seq)}
-		sfx, vsfx := "", ""
+		sfx := ""
 		if len(pat) == 1 {
 			sfx = ":patlen=1"
-		}
-		if strings.Contains(pat, "V") {
-			vsfx = ":pattern-has-v"
 		}
 		var from, to, score int
 		var pmsg string
@@ -168,12 +164,12 @@ func TestVerifC10Locate(t *testing.T) {
 		}
 		d := c10lpEd(masks, seq[from:to], prev, cur)
 		if d != score {
-			violate("LocatePattern/score-not-editdistance"+vsfx, c, "returned [%d,%d)=%q score=%d but the edit distance between pattern and span is %d", from, to, string(seq[from:to]), score, d)
+			violate("LocatePattern/score-not-editdistance", c, "returned [%d,%d)=%q score=%d but the edit distance between pattern and span is %d", from, to, string(seq[from:to]), score, d)
 			return
 		}
 		mn := c10lpMin(masks, seq, col)
 		if score != mn {
-			violate("LocatePattern/score-not-minimal"+vsfx, c, "returned [%d,%d) score=%d but a substring at edit distance %d exists", from, to, score, mn)
+			violate("LocatePattern/score-not-minimal", c, "returned [%d,%d) score=%d but a substring at edit distance %d exists", from, to, score, mn)
 			return
 		}
 		if score > 0 {
